@@ -23,17 +23,23 @@ import inspect
 import warnings
 
 RULE = ("part 1 exhaustive over scenarios = (services in the configuration, Companion credentials, AirPlay video / "
-        "MRP-tunnel / unified-RAOP flags, which queued SetupData answer connect() with False): the 31 native sets, all 180 "
-        "(set-up set, failing proper subset) pairs, 48 tunnel/unified configurations each with every single failing "
-        "connect, plus seeded random ones; x {no holder, each of 5 holders} x every member, then again after each connected "
+        "MRP-tunnel / unified-RAOP flags, empty or real TXT records, which queued SetupData answer connect() with False): "
+        "the 31 native sets (both TXT variants, both video flags), all 180 (set-up set, failing proper subset) pairs, 48 "
+        "tunnel/unified configurations all connecting (both TXT variants) and with every single failing connect, plus seeded "
+        "random ones; the device object comes from the real pyatv.connect() and a connected protocol takes over through the "
+        "core.takeover wired there; x {no holder, each of 5 holders} x every member with default-style arguments and with "
+        "every other value of its enum-typed / optional parameters (from the signatures); then again after each connected "
         "protocol published volume/output devices/focus/play state with exactly the published values as arguments (twice, "
         "and under a takeover); non-trivial = the call is not served by the first connected protocol of the plain "
         "priority list. part 2: random histories of takeover/release (>=30% failing takeovers by construction) interleaved "
         "with state updates; non-trivial = history with at least one failing takeover and one release; "
-        "distinct = (scenario, holder, publisher, member) resp. (scenario, op list)")
+        "distinct = (scenario, holder, member incl. argument variant) / (scenario, holder, publisher) resp. (scenario, op list)")
 ASSUMPTIONS = [
     "SetupData.connect/close are replaced by coroutines answering True/False; interface instances are the real ones from "
-    "the real set-up loop of pyatv.connect (native setup(), MRP over the AirPlay tunnel, RAOP set up by AirPlay), never connected",
+    "the real pyatv.connect() (native setup(), MRP over the AirPlay tunnel, RAOP set up by AirPlay), never connected; only "
+    "pyatv.PROTOCOLS is wrapped to swap SetupData.connect/close and to note the Core objects pyatv.connect created",
+    "a takeover 'by protocol p' is performed through the takeover method of the Core that p's registered instances hold (else "
+    "the Core pyatv.connect created for p); for a protocol the device is not connected with, FacadeAppleTV.takeover is called",
     "the connected set is the set of protocols whose SetupData.connect answered True (first SetupData per protocol wins, as in "
     "FacadeAppleTV.connect); a connect() that raises aborts pyatv.connect and leaves no usable device object: not enumerated",
     "overriding members are replaced on the protocol classes by recorders for the duration of the run (restored afterwards)",
